@@ -79,6 +79,17 @@ class AliasedQuery(Selectable):
             return self.name
         return self.query.get_sql(ctx)
 
+    def replace_table(self, current_table: "Table" | None, new_table: "Table" | None) -> "Self":
+        """
+        Replaces all occurrences of the specified table in the aliased query (a reference without a
+        query holds no tables and is returned unchanged).
+        """
+        if self.query is None:
+            return self
+        newone = copy(self)
+        newone.query = self.query.replace_table(current_table, new_table)  # type:ignore[union-attr]
+        return newone
+
     def __eq__(self, other: Any) -> bool:
         return isinstance(other, AliasedQuery) and self.name == other.name
 
